@@ -326,7 +326,7 @@ static Plan gen_C07(uint64_t seed, Rng &r) {
     int64_t base = 3000;
     for (int rd = 0; rd < rounds; rd++) {
         size_t k;
-        switch (r.below(8)) { case 0: k = 0; break; case 1: k = 1; break; case 2: k = cap - 1; break; case 3: k = cap; break; case 4: k = cap + 1; break; case 5: k = 2 * cap; break; case 6: k = 3 * cap + 1; break; default: k = r.below(301); break; }
+        switch (r.below(9)) { case 0: k = 0; break; case 1: k = 1; break; case 2: k = cap - 1; break; case 3: k = cap; break; case 4: k = cap + 1; break; case 5: k = 2 * cap; break; case 6: k = 3 * cap + 1; break; case 7: k = (size_t)r.pickl({255, 256, 257, 127, 128, 129}); break; default: k = r.below(301); break; }
         if (k > 300) k = 300;
         // k distinct observations, in a few floods with other traffic interleaved
         size_t left = k;
@@ -815,8 +815,26 @@ Plan generate_plan_indexed(const std::string &prop, uint64_t verif_seed, uint64_
     for (char c : prop) ph = ph * 131 + (uint8_t)c;
     uint64_t seed = mix64(mix64(verif_seed, ph), index);
     Rng r(seed);
-    if (prop == "C05") return gen_C05(seed, r, index);
+    if (prop == "C05") { if (index < 2 * 65536 || !r.chance(0.12)) return gen_C05(seed, r, index); }
     if (prop == "C14") return gen_C14(seed, r, index);
     if (prop == "C15") return gen_C15(seed, r, index);
+    // Swarm across properties: one run in eight of a frame-level property borrows the history of a sibling property's generator
+    // (its own oracles stay on), so that no oracle only ever sees the histories written with it in mind.
+    static const char *LAN[] = {"C01", "C02", "C03", "C04", "C06", "C07", "C08", "C09", "C10", "C11", "C12", "C19"};
+    bool lan = prop == "C05";
+    for (auto q : LAN) if (prop == q) lan = true;
+    if (lan && r.chance(0.12)) {
+        std::string sib = LAN[r.below(sizeof(LAN) / sizeof(LAN[0]))];
+        if (sib != prop) {
+            Plan p = generate_plan(sib, mix64(seed, 0x51B), tier);
+            if (!p.api_world && p.ops.size() < 400) {
+                p.prop = prop; p.family = 50; p.seed = seed;
+                p.twin = prop == "C09";
+                if (prop != "C09" && prop != "C19" && prop != "C01") for (auto &o : p.ops) { std::vector<Fault> keep; for (auto &f : o.f) if (!fault_is_internal(f.kind)) keep.push_back(f); o.f = keep; }
+                return p;
+            }
+        }
+    }
+    if (prop == "C05") return gen_C05(seed, r, index);
     return generate_plan(prop, seed, tier);
 }
